@@ -31,6 +31,7 @@ type Reader struct {
 	version     PDFVersion
 	objCache    map[int]core.Object        // Cache for loaded objects
 	objStmCache map[int]*core.ObjectStream // Cache for object streams
+	resolving   map[int]bool               // Objects being loaded right now (reference cycle guard)
 	fileSize    int64
 	pageTree    *pages.PageTree // Cached page tree
 }
@@ -50,6 +51,7 @@ func NewReader(file *os.File) (*Reader, error) {
 		file:        file,
 		objCache:    make(map[int]core.Object),
 		objStmCache: make(map[int]*core.ObjectStream),
+		resolving:   make(map[int]bool),
 		fileSize:    fileInfo.Size(),
 	}
 
@@ -182,6 +184,17 @@ func (r *Reader) GetObject(objNum int) (core.Object, error) {
 	if !entry.InUse {
 		return nil, fmt.Errorf("object %d is not in use", objNum)
 	}
+
+	// Loading an object can require other objects (an indirect stream /Length, the object
+	// stream that contains it). If that chain comes back to this object it can never be loaded.
+	if r.resolving[objNum] {
+		return nil, fmt.Errorf("object %d: circular reference while loading it", objNum)
+	}
+	if r.resolving == nil {
+		r.resolving = make(map[int]bool)
+	}
+	r.resolving[objNum] = true
+	defer delete(r.resolving, objNum)
 
 	var obj core.Object
 	var err error
